@@ -274,3 +274,17 @@ M("c20-memo-reader", ["C20"], U, "def read_ec_benchmark_dataset(file_path=None):
 M("c05-memo-args", ["C05", "C19"], D, "        args_with_default = list(self.parameters.values())", "        self._last_args = args_with_default = list(self.parameters.values())",
   rules={"C05": ["C05.stateless"], "C19": ["C19.nomodelwrite"]}, what="evaluation helper writes an attribute")
 M("c17-mutate-contour", ["C17", "C19"], U, "    coords = contour.coordinates\n", "    coords = contour.coordinates\n    coords.sort(axis=0)\n", rules={"C17": ["C17.stateless"], "C19": ["C19.noargmut"]}, what="sorts the caller's coordinates in place")
+
+# ------------------------------------------------------------------ C10 totality (defect D17, fixed)
+M("c10-ppi-short-data", "C10", I, "        if n_full_chunks == 0:\n            # fewer observations than n_points: one interval that is not full\n            interval_idc = [sorted_idc]\n        elif remainder != 0:", "        if remainder != 0:",
+  rules=["C10.ppi"], what="original defect D17: np.split(x, 0) for data shorter than n_points")
+M("c10-ppi-all-dropped", "C10", I, "        if len(interval_slices) == 0:\n            # nothing left to calculate boundaries for, slice_ reports it\n            return interval_slices, interval_references, []\n", "",
+  rules=["C10.ppi"], what="original defect D17: interval_slices[0] with every interval dropped")
+M("c10-ppi-empty-exit-wrong", "C10", I, "            return interval_slices, interval_references, []\n", "            return [np.ones(len(data), dtype=bool)], [None], [(None, None)]\n",
+  rules=["C10.min"], what="the nothing-left exit invents an interval")
+M("c10-ppi-wrong-guard", "C10", I, "        if n_full_chunks == 0:\n            # fewer", "        if remainder == len(data) + 1:\n            # fewer", rules=["C10.ppi"], what="short-data guard tests something else")
+M("c10-twin-ppi-guard-lt", "C10", I, "        if n_full_chunks == 0:\n            # fewer", "        if len(data) < self.n_points:\n            # fewer", expect="pass")
+M("c10-twin-ppi-guard-not", "C10", I, "        if n_full_chunks == 0:\n            # fewer", "        if not n_full_chunks:\n            # fewer", expect="pass")
+M("c10-twin-ppi-empty-not", "C10", I, "        if len(interval_slices) == 0:\n            # nothing left", "        if not interval_slices:\n            # nothing left", expect="pass")
+M("c10-twin-ppi-empty-lt1", "C10", I, "        if len(interval_slices) == 0:\n            # nothing left", "        if len(interval_slices) < 1:\n            # nothing left", expect="pass")
+M("c10-twin-ppi-empty-lists", "C10", I, "            return interval_slices, interval_references, []\n", "            return [], [], []\n", expect="pass")
